@@ -23,7 +23,7 @@ func init() {
 		MinNontriv: 60,
 		Cases: func(tier string) int {
 			if tier == "thorough" {
-				return 40000
+				return 300000
 			}
 			return 3000
 		},
